@@ -55,6 +55,15 @@ def frame_lookups(fn):
     for n in fn.all_nodes():
         if n.kind == "CXXReinterpretCastExpr" and (n.get("prt") or "").endswith("::frame"):
             inner = n.children[0].strip() if n.children else None
+            if inner is not None and not (inner.kind == "BinaryOperator" and inner.op == "&"):
+                # the masking may sit in a folded helper (frame_address_of_(address)): look at what the helper returns
+                from .ir import value_leaves
+                lv = [x for x in value_leaves(fn, n.children[0])]
+                if len(lv) == 1:
+                    inner = lv[0].strip()
+                    hops = 0
+                    while inner.kind in ("ImplicitCastExpr", "ParenExpr", "CStyleCastExpr", "CXXStaticCastExpr") and inner.children and hops < 6:
+                        inner, hops = inner.children[0].strip(), hops + 1
             if inner is not None and inner.kind == "BinaryOperator" and inner.op == "&":
                 out.append((n, inner))
     return out
@@ -98,11 +107,19 @@ def check_C01(ctx, unit):
 
                 def leaf(x, f=f, pids=pids, depth=0):
                     from .poly import Poly, to_poly
-                    x = std_unwrap(RA.resolve_local(f, std_unwrap(x)))
+                    bm_ = f.bind_map()
+
+                    def thru(y):
+                        y = std_unwrap(RA.resolve_local(f, std_unwrap(y)))
+                        h_ = 0
+                        while y.kind == "DeclRefExpr" and y.d.get("d") in bm_ and h_ < 8:      # parameter of a folded helper
+                            y, h_ = std_unwrap(RA.resolve_local(f, std_unwrap(f.node(bm_[y.d["d"]])))), h_ + 1
+                        return y
+                    x = thru(x)
                     hops = 0
                     while x.kind in ("CStyleCastExpr", "CXXStaticCastExpr", "CXXReinterpretCastExpr", "ImplicitCastExpr",
                                      "CXXFunctionalCastExpr", "ParenExpr") and x.children and hops < 8:
-                        x, hops = std_unwrap(RA.resolve_local(f, std_unwrap(x.children[0]))), hops + 1
+                        x, hops = thru(x.children[0]), hops + 1
                     if x.kind == "DeclRefExpr" and x.d["d"] in pids:
                         return Poly.sym("p")
                     if x.kind == "BinaryOperator" and x.op in ("+", "-", "*"):
@@ -381,12 +398,19 @@ def _usable_size_shape(fn, n):
     c = x.cv()
     if c is not None and x.kind not in ("DeclRefExpr", "MemberExpr"):
         return str(c)
+    def frame_field(e, fld):
+        """e is `<expression of frame type>-><fld>`: through a local, or directly on what a folded look-up helper returned"""
+        e = std_unwrap(e)
+        if e.kind != "MemberExpr" or e.get("m") != fld or e.get("mk") != "Field":
+            return False
+        p_ = path(e)
+        if p_ and len(p_) == 2:
+            return True
+        return (e.get("mc") or "").endswith("frame")
     if x.is_call() and x.callee and x.callee["n"] == "bucket_to_size" and x.args:
-        p = path(x.args[0])
-        if p and p[-1] == "index" and len(p) == 2:
+        if frame_field(x.args[0], "index"):
             return "bucket_to_size(<frame>.index)"
-    p = path(x)
-    if p and len(p) == 2 and p[-1] == "length" and x.kind == "MemberExpr":
+    if frame_field(x, "length"):
         return "<frame>.length"
     return _strip_ids(canon(x))
 
@@ -435,7 +459,8 @@ def check_C02(ctx, unit):
             for f in bn.get(name, []):
                 pp = f.params()[0]["d"]
                 lk = frame_lookups(f)
-                derefs = [n for n in f.events() if n.kind == "MemberExpr" and n.get("arrow") and path(n) and path(n)[0].startswith("v:")]
+                derefs = [n for n in f.events() if n.kind == "MemberExpr" and n.get("arrow") and (
+                    (path(n) and path(n)[0].startswith("v:")) or (n.get("mc") or "").endswith("frame"))]
                 bad = []
                 for n in derefs:
                     nonnull = False
@@ -455,20 +480,21 @@ def check_C02(ctx, unit):
                 ok2 = True
                 if name == "realloc":
                     # first decision is on p; its null arm returns allocate(new_size)
-                    fw = [r for r in f.return_nodes() if r.child("val") is not None and std_unwrap(r.child("val")).is_call()
-                          and std_unwrap(r.child("val")).callee and std_unwrap(r.child("val")).callee["n"] == "allocate"]
+                    from .ir import exit_values
+                    evs = exit_values(f)
+                    fw = [(r, v) for r, v in evs if v is not None and std_unwrap(v).is_call()
+                          and std_unwrap(v).callee and std_unwrap(v).callee["n"] == "allocate"]
                     ok_fw = False
-                    for r in fw:
+                    for r, v in fw:
                         for cond, truth in flow.facts_at(f, r.id):
                             c, t = cond.strip(), truth
                             while c.kind == "UnaryOperator" and c.op == "!":
                                 c, t = c.children[0].strip(), not t
                             if c.kind == "DeclRefExpr" and c.d["d"] == pp and t is False:
-                                a = std_unwrap(r.child("val")).args
+                                a = std_unwrap(v).args
                                 ok_fw = len(a) == 1 and std_unwrap(a[0]).kind == "DeclRefExpr" and std_unwrap(a[0]).d["d"] == f.params()[1]["d"]
                     fz = False
-                    for r in f.return_nodes():
-                        v = r.child("val")
+                    for r, v in evs:
                         if v is not None and (v.strip().get("nullc") or v.strip().kind == "CXXNullPtrLiteralExpr"):
                             facts = flow.facts_at(f, r.id)
                             zero = any(_is_zero_fact(c, t, f.params()[1]["d"]) for c, t in facts)
@@ -524,8 +550,9 @@ def check_C02(ctx, unit):
             fi = inline_variant(unit, f, sel)
             ns_did = f.params()[-1]["d"]
             arms = 0
-            for r in fi.return_nodes():
-                v = r.child("val")
+            arm_shapes = set()
+            from .ir import exit_values as _exit_values
+            for r, v in _exit_values(fi):
                 if v is not None and std_unwrap(v).kind == "DeclRefExpr" and std_unwrap(v).d["d"] == f.params()[0]["d"]:
                     arms += 1
                     okp = False
@@ -543,10 +570,52 @@ def check_C02(ctx, unit):
                                 shapes = {(_usable_size_shape(fi, d_) if d_ is not None else "<undefined>") for d_ in defs_} or {"<undefined>"}
                             if shapes <= {"bucket_to_size(<frame>.index)", "<frame>.length"}:
                                 okp = True
+                                arm_shapes |= shapes
                     if not okp:
                         problems.append("returns the old pointer at %s without new_size <= usable size known on that path" % r.loc)
-            if arms < 2:
-                problems.append("expected an in-place arm for slab blocks and one for large blocks, found %d" % arms)
+            if arm_shapes != {"bucket_to_size(<frame>.index)", "<frame>.length"}:
+                # (one arm per kind of block, or one shared arm whose size variable is defined per kind)
+                problems.append("expected in-place success for slab blocks and for large blocks, found %d arm(s) over %s" % (arms, sorted(arm_shapes)))
+            # the copy fits its destination: on every path to memcpy(new, old, n) the new block was requested with
+            # new_size > n -- known from the assertion on n, or from the test that made the in-place helper give up on the
+            # value n holds on that path (per path: the slab arm and the large arm establish it for different expressions)
+            cps_ = [c for c in fi.events() if c.is_call() and c.callee and c.callee["n"] in ("memcpy", "__builtin_memcpy", "memmove") and len(c.args) == 3]
+            short = []
+            for c in cps_:
+                cn = std_unwrap(c.args[2])
+                if cn.kind != "DeclRefExpr":
+                    continue
+                nd = cn.d["d"]
+
+                def trc(n, st, nd=nd, c=c):
+                    gt, nsh = st
+                    if n.kind == "BinaryOperator" and n.op == "=" and std_unwrap(n.children[0]).kind == "DeclRefExpr" \
+                            and std_unwrap(n.children[0]).d["d"] == nd:
+                        return [(gt - {"v"}, _usable_size_shape(fi, n.children[1]))]
+                    if n.kind == "DeclStmt":
+                        for d_ in n.get("decls", []):
+                            if d_.get("d") == nd and "init" in d_:
+                                return [(gt - {"v"}, _usable_size_shape(fi, fi.node(d_["init"])))]
+                    if n.id == c.id and "v" not in gt and (nsh is None or nsh not in gt):
+                        short.append(c.loc)
+                    return [st]
+
+                def rfc(cond, truth, st, nd=nd):
+                    gt, nsh = st
+                    rel = flow.fact_relation(cond, truth)
+                    if rel is not None:
+                        a_, op_, b_ = rel
+                        if op_ == "<" and std_unwrap(b_).kind == "DeclRefExpr" and std_unwrap(b_).d["d"] == ns_did:
+                            x = std_unwrap(a_)
+                            if x.kind == "DeclRefExpr" and x.d.get("d") == nd:
+                                gt = gt | {"v"}
+                            else:
+                                gt = gt | {_usable_size_shape(fi, a_)}
+                    return [(gt, nsh)]
+                flow.run(fi, [(frozenset(), None)], trc, rfc)
+            if short:
+                problems.append("the copy at %s can run on a path on which new_size > (copied length) is not known: the old usable "
+                                "size may exceed the new block" % sorted(set(short))[0])
             ctx.inst("E.realloc-copy", "%s::realloc%s" % (POOL, tag), not problems, f.loc,
                      "; ".join(problems) if problems else "allocate, test, memcpy(old usable size), free(old), return new", f)
         for name in ("reallocate_in_slab_", "reallocate_huge_"):
@@ -821,7 +890,9 @@ def check_C03(ctx, unit):
     pol = policy_classes(unit)
     ctx.rule("E.map-provenance", "in both constructors the length passed to Policy::map is the value stored in the frame's "
              "sb_reservation and the result of map is stored in sb_base", 6)
-    ctx.rule("E.unmap-provenance", "Policy::unmap has one call site, reached only for large frames; its arguments are the "
+    ctx.rule("E.unmap-provenance", "the header fields of a frame (type, address, length, sb_base, sb_reservation) are written only to a "
+             "frame the same function has just placement-constructed; "
+             "Policy::unmap has one call site, reached only for large frames; its arguments are the "
              "frame's sb_base and sb_reservation, read before the header is poisoned", 3)
     ctx.rule("E.page-accounting", "the used-page counter is raised on slab/large creation and lowered on large free by the same "
              "expression of the frame length", 3)
@@ -935,6 +1006,35 @@ def check_C03(ctx, unit):
             for i, (e, f, n) in enumerate(exprs[op]):
                 ctx.inst("E.page-accounting", "%s::%s: _usedPages %s #%d%s" % (POOL, f.name, op, i + 1, tag), len(allx) == 1, n.loc,
                          "amount %s; all amounts in this pool: %s" % (e, sorted(allx)), f)
+        # the header of a frame describes a mapping: it is written when the frame is built and never again
+        GEOM = ("type", "address", "length", "sb_base", "sb_reservation")
+        late, n_w = [], 0
+        for f in fns:
+            inits_ = RA.local_inits(f)
+            for n in f.events():
+                tgt = None
+                if n.kind in ("BinaryOperator", "CompoundAssignOperator") and n.get("op", "").endswith("=") and n.op not in ("==", "!=", "<=", ">="):
+                    tgt = n.children[0].strip()
+                elif n.kind == "UnaryOperator" and n.op in ("++", "--"):
+                    tgt = n.children[0].strip()
+                if tgt is None or tgt.kind != "MemberExpr" or tgt.get("m") not in GEOM or not tgt.children:
+                    continue
+                b = tgt.children[0]
+                bt = (b.get("t") or "") + (std_unwrap(b).get("t") or "")
+                if "frame" not in bt:
+                    continue
+                n_w += 1
+                src = RA.resolve_local(f, std_unwrap(b), inits_)
+                hops = 0
+                while src.kind in ("ImplicitCastExpr", "CXXStaticCastExpr", "ParenExpr", "CStyleCastExpr", "CXXReinterpretCastExpr") and src.children and hops < 6:
+                    src, hops = src.children[0].strip(), hops + 1
+                if src.kind != "CXXNewExpr":
+                    late.append("%s writes %s of a frame it did not just build (%s)" % (f.name, tgt.get("m"), n.loc))
+        if n_w < 2:
+            raise AnalysisBroken("anchor vanished: writes of sb_base / sb_reservation where a frame is built (found %d)" % n_w)
+        ctx.inst("E.unmap-provenance", "%s: frame header written once%s" % (POOL, tag), not late, fns[0].loc,
+                 ("; ".join(sorted(set(late))[:2]) + ": free_huge_ unmaps and un-accounts by these fields") if late else
+                 "%d writes of header fields, all to the frame the function has just constructed" % n_w, None)
         if not poisoning:
             continue
         # poison typestate
@@ -1028,9 +1128,9 @@ def check_C03(ctx, unit):
                      "the old block is unpoison_expand()ed before its usable size is copied, on the slab and on the large path", f0)
             left = realloc_exit_poisoned(unit, fns, f0, pol)
             ctx.inst("Z.poison-order", "%s::realloc: the caller's block at every exit%s" % (POOL, tag), not left, f0.loc,
-                     ("the return at %s is reached with the caller's block poisoned and not freed (e.g. a failed moving "
-                      "realloc after the in-place helper poisoned it): the still-live block is inaccessible" % left[0]) if left else
-                     "no return is reached with the caller's block poisoned unless it was freed", f0)
+                     ("the return at %s: a failed moving realloc must leave the still-live block exactly as accessible as "
+                      "it was" % left[0]) if left else
+                     "every return is reached with the caller's block untouched, resized in place or freed", f0)
         for f in bn.get("free_huge_", []):
             fp = f.params()[0]
             pz = [x for x in pcalls(f, "poison") if arg0(x) == fp["n"]]
@@ -1044,8 +1144,9 @@ def check_C03(ctx, unit):
 
 
 def realloc_exit_poisoned(unit, fns, f0, pol):
-    """Whatever realloc does to the accessibility of the caller's block on the way, it does not return with the block
-    poisoned: a failed moving realloc hands the block back exactly as usable as it was.  Returns the locations of the
+    """Whatever realloc does to the accessibility of the caller's block on the way, it returns with the block untouched,
+    resized in place (unpoison_expand, poison, unpoison(new size)) or freed -- never poisoned and never merely widened: a
+    failed moving realloc hands the block back exactly as usable as it was.  Returns the locations of the
     returns reached with the block poisoned and not freed (private bool helpers folded in)."""
     from .inline import inline_variant
     byd_ = {g.d["did"]: g for g in fns}
@@ -1059,17 +1160,20 @@ def realloc_exit_poisoned(unit, fns, f0, pol):
         return std_unwrap(a).kind == "DeclRefExpr" and std_unwrap(a).d["d"] == pp
 
     def tr2(n, st):
-        if is_policy_call(n, pol, ("unpoison_expand", "unpoison")) and n.args and isp(n.args[0]) and st != "freed":
-            return ["open"]
+        # untouched -> (unpoison_expand) expanded -> (poison) poisoned -> (unpoison) resized; free(p) ends the block
+        if is_policy_call(n, pol, ("unpoison_expand",)) and n.args and isp(n.args[0]) and st != "freed":
+            return ["expanded"]
+        if is_policy_call(n, pol, ("unpoison",)) and n.args and isp(n.args[0]) and st != "freed":
+            return ["resized"]
         if is_policy_call(n, pol, ("poison",)) and n.args and isp(n.args[0]) and st != "freed":
             return ["poisoned"]
         if n.is_call() and n.callee and n.callee["n"] in ("free", "free_in_slab_", "free_huge_", "deallocate") \
                 and any(isp(a) for a in n.args):
             return ["freed"]
-        if n.id in retids and st == "poisoned":
-            left.append(n.loc)
+        if n.id in retids and st in ("poisoned", "expanded"):
+            left.append("%s (block %s)" % (n.loc, "poisoned" if st == "poisoned" else "widened to its whole usable size"))
         return [st]
-    flow.run(f, ["open"], tr2)
+    flow.run(f, ["untouched"], tr2)
     return sorted(set(left))
 
 
